@@ -33,6 +33,7 @@ RULE = (
     "torch seeds per case (quick) / 12 (thorough); support + shape + domain checks on every sample, "
     "one-hot column attribution, two-stage chi-square against exhaustive probabilities; contiguous scopes "
     "0..n-1 for the main workload, sparse scopes as a separate class"
+    " Also: hand-built DAGs whose input layers feed Hadamard / Kronecker / leaf-sum branches, Gaussian and mixed circuits (category x tercile x tercile cell frequencies vs grid quadrature), resampling after an in-place update;"
 )
 EXHAUSTIVE_SUBSPACES = ["all 4 (fold, optimize) combinations per case", "exhaustive reference probabilities over the full discrete domain"]
 ASSUMPTIONS = ["chi-square two-stage test at 1e-9 per stage (false-alarm probability < 1e-15 per case)", "single-output, single-unit circuits (the query returns samples[:, 0, 0])"]
